@@ -180,6 +180,13 @@ Qed.
 Definition wal_good (d : dir) (nm : name) : Prop :=
   exists es, dget d nm = Some (FWal (map Good es) Clean).
 
+(* what the reader tolerates: a clean end of file or a torn tail (C01 crash states) *)
+Definition wal_readable (d : dir) (nm : name) : Prop :=
+  exists es t, dget d nm = Some (FWal (map Good es) t) /\ t <> BadLen.
+
+Lemma wal_good_readable : forall d nm, wal_good d nm -> wal_readable d nm.
+Proof. intros d nm [es H]. exists es, Clean. split; [exact H|discriminate]. Qed.
+
 Definition entries_of (d : dir) (nm : name) : list entry :=
   match dget d nm with Some (FWal frs _) => fst (read_frames frs) | _ => [] end.
 
@@ -222,14 +229,15 @@ Proof.
 Qed.
 
 Lemma replay_segments_ok : forall c d sseq nx segs st mx gap,
-  (forall nm, In nm segs -> wal_good d nm) ->
+  (forall nm, In nm segs -> wal_readable d nm) ->
   Forall (entry_ok c nx) (all_entries d segs) ->
   replay_segments c Strict d sseq sseq (st, mx, gap) segs
   = Ok (replay_pure sseq st (all_entries d segs), maxseq mx (all_entries d segs), gap).
 Proof.
   intros c d sseq nx. induction segs as [|nm rest IH]; intros st mx gap Hg Hok; [reflexivity|].
-  destruct (Hg nm (or_introl eq_refl)) as [es Hes].
+  destruct (Hg nm (or_introl eq_refl)) as (es & t & Hes & Ht).
   cbn [replay_segments]. rewrite Hes. unfold read_all. rewrite read_frames_good.
+  replace (match t with BadLen => 0 + 1 | _ => 0 end) with 0 by (destruct t; [reflexivity|reflexivity|congruence]).
   change (0 <? 0) with false. cbn iota.
   unfold all_entries in *. cbn [flat_map] in *. rewrite (entries_of_good _ _ _ _ Hes) in *.
   apply Forall_app in Hok. destruct Hok as [Hok1 Hok2].
@@ -257,7 +265,7 @@ Lemma recover_read_ok : forall c d m sdocs sseq nx,
   wf_cfg c = true ->
   dget d NManifest = Some (FManifest m) ->
   snap_ok c d m sdocs sseq ->
-  (forall nm, In nm (m_segments m) -> wal_good d nm) ->
+  (forall nm, In nm (m_segments m) -> wal_readable d nm) ->
   Forall (entry_ok c nx) (all_entries d (m_segments m)) ->
   recover_read c Strict d
   = Ok (replay_pure sseq sdocs (all_entries d (m_segments m)),
@@ -807,7 +815,8 @@ Proof.
   intros c s Hwf [H (Mso & Mdo & Msz & Mcap)].
   pose proof H as (m & sdocs & sseq & Hm & Hpre & Hnd & Hw & Hg & Hs & Hok & Hmx & Hrp).
   unfold recover_full.
-  rewrite (recover_read_ok c (st_disk s) m sdocs sseq (st_next_seq s) Hwf Hm Hs Hg Hok).
+  rewrite (recover_read_ok c (st_disk s) m sdocs sseq (st_next_seq s) Hwf Hm Hs
+             (fun nm Hin => wal_good_readable _ _ (Hg nm Hin)) Hok).
   rewrite Hrp, (rebuild_docs_ok c _ Mdo).
   rewrite size_le_cap_ltb by lia. rewrite (accepts_all_ok c _ Mdo). cbn [negb].
   eexists. eexists. split; [reflexivity|]. cbn [st_store st_next_seq st_disk].
